@@ -164,6 +164,7 @@ func TestC18RaceScenarios(t *testing.T) {
 	rapid.Check(t, func(rt *rapid.T) {
 		c := genC18(rt)
 		rec.Current("race_scenario", c)
+		vnet.FreezeHook = mutexDeadlockHook(rec, "race_scenario", c, "lock-order deadlock")
 		v, co := runC18(t, c)
 		var labels []string
 		if co {
